@@ -85,8 +85,14 @@ def roundtrip(codec, b, tag):
     try:
         b2 = ma(copy.deepcopy(d))
         b2 = bytes(b2)
+        # ... and from the very object the parser returned, twice over: the caller still holds it after the first build
+        b3 = [bytes(ma(d)), bytes(ma(d))]
     except Exception as e:   # noqa: BLE001
         return [("%s/build_raises" % tag, "%s: rebuilding the parsed response raised %s: %s" % (tag, type(e).__name__, e))], d
+    for n_, bb in enumerate(b3):
+        if bb != b2:
+            out.append(("%s/rebuild_differs" % tag, "%s: build number %d from the same parsed values gives %s, the first gave %s" % (tag, n_ + 2, bb[:48].hex(), b2[:48].hex())))
+            return out, d
     if b2 != bytes(b):
         i = next((i for i in range(min(len(b), len(b2))) if b[i] != b2[i]), min(len(b), len(b2)))
         out.append(("%s/bytes_differ" % tag, "%s: rebuilt response differs at byte %d (%d vs %d bytes): device %s rebuilt %s"
